@@ -192,7 +192,9 @@ def check_pipeline(ctx, case) -> None:
             if isinstance(val, tuple):
                 prev[n] = obs[0][n]
             else:
-                prev[n] = val
+                # the row was accepted (possibly through the tie-set rule, where the implementation's value is another
+                # member of the tie set): the state carried to the next row is the implementation's accepted value
+                prev[n] = obs[0][n]
                 if math.isfinite(val):
                     finite = True
         for bd in res["degrees"]:
